@@ -166,6 +166,17 @@ def check_cover(ctx, ex, p, drv, loop, F, rv, m, penalty, st):
     shape_ok = F.shape is not None and len(F.shape) == 1 and nf_equal(lift(F.shape[0]), n1)
     ctx.check(shape_ok, rule, "table|length", drv.loc(F.node), "the table of optimal costs has one entry per prefix 0..n", found=f"shape {F.shape}", expected="(n + 1,)")
     ctx.check(F.dtype == "float", rule, "table|dtype", drv.loc(F.node), "the table is a float array whatever the numeric type of the penalty (an integer-typed table would truncate the stored costs)", found=f"dtype {F.dtype or 'taken from an argument'}", expected="float")
+    # the published scores are the optimal costs of the prefixes X[0:1], ..., X[0:n]: F[1:]
+    out0 = rv.items[0]
+    oi = out0.meta.get("index") if isinstance(out0, Num) else None
+    ok_out = False
+    found = "the whole table" if isinstance(out0, Num) and out0.arr is F and not oi else "?"
+    if oi is not None and len(oi) == 1 and isinstance(oi[0], SliceV):
+        sl = oi[0]
+        lo = sl.lo.nf.as_const() if isinstance(sl.lo, Num) else None
+        ok_out = lo == 1 and isinstance(sl.hi, NoneV) and isinstance(sl.step, NoneV)
+        found = f"F[{'' if isinstance(sl.lo, NoneV) else valkey(sl.lo)}:{'' if isinstance(sl.hi, NoneV) else valkey(sl.hi)}]"
+    ctx.check(ok_out, rule, "table|published", drv.loc(), "the returned scores are F[1:], the optimal cost of every non-empty prefix", found=found, expected="F[1:]")
     ivs = []
     # initial contents
     if F.init[0] == "fill":
@@ -328,6 +339,15 @@ def check_bellman(ctx, ex, p, drv, loop, F, m, penalty, split_cost, st):
         bi = b.data["index"]
         ctx.check(len(bi) == 1 and isinstance(bi[0], Num) and nf_equal(R(bi[0].nf), t), rule_g, "back-pointer|index", b.loc(), "the back-pointer of prefix X[0:t+1] is stored at position t", found=repr(R(bi[0].nf)) if bi and isinstance(bi[0], Num) else "?", expected="t")
         st["prev"] = b.data["arr"]
+        # prefixes that the loop never visits (t < 2m-1) keep the initial back-pointer: they cannot contain a changepoint,
+        # so it must be 0 (segment starts at the first sample); anything else sends the backtracking chain astray
+        P = b.data["arr"]
+        init = getattr(P, "init", None)
+        zero_init = init is not None and (init[0] == "zeros" or (init[0] == "fill" and isinstance(init[1], NF) and init[1].is_zero()))
+        other = [s_ for s_ in P.stores if s_ is not b]
+        ctx.check(zero_init and not other, rule_g, "back-pointer|initial", drv.loc(P.node), "positions the recursion never visits (t < 2m-1) keep the back-pointer 0 (one segment from the first sample); no other store into the back-pointer table", found=f"initialised by {init[0] if init else '?'}({init[1]!r})" if init and len(init) > 1 else f"initialised by {init}", expected="zeros / repeat(0, n), int")
+        pshape = P.shape is not None and len(P.shape) == 1 and nf_equal(lift(P.shape[0]), lift(N))
+        ctx.check(pshape and P.dtype == "int", rule_g, "back-pointer|table", drv.loc(P.node), "one integer back-pointer per sample", found=f"shape {P.shape} dtype {P.dtype}", expected="(n,) int")
 
     # ---------------------------------------------------------------- PRUNE-FORM
     rule_p = "C02.d PRUNE-FORM"
